@@ -85,6 +85,11 @@ REWRITES = {
     "map_map_collect": ("re", r"(?s)idents\s*\.into_iter\(\)\s*\.map\((\|identifier\|.*?)\)\s*\.map\((\|ident\|.*?)\)\s*\.collect\(\)", r"vec_map_map_collect(idents, \1, \2)", "v.into_iter().map(f).map(g).collect() -> shim with the same std body (R8)"),
     "map_filter_map_collect": ("re", r"(?s)identifiers\s*\.into_iter\(\)\s*\.map\((\|identifier\|.*?)\)\s*\.filter\((\|i\|.*?)\)\s*\.map\((\|i\|.*?)\)\s*\.collect\(\)", r"vec_map_filter_map_collect(identifiers, \1, \2, \3)", "v.into_iter().map(f).filter(p).map(g).collect() -> shim with the same std body (R8)"),
     "workspace_edit_single": ("re", r"(?s)WorkspaceEdit \{\s*changes: Some\(HashMap::from\(\[\(uri, text_edits\)\]\)\),\s*\.\.Default::default\(\)\s*\}", r"workspace_edit_single(uri, text_edits)", "WorkspaceEdit { changes: Some(HashMap::from([(uri, edits)])), ..Default::default() } -> shim with that body on an opaque stand-in: the edit of one document"),
+    "iter_find": ("chain_fmc2", "find", "iter_find", "xs.iter().find(p) -> shim with the same std body (R8): the first element satisfying p"),
+    "name_clone": ("re", r"\bname\.clone\(\)", r"string_clone(name)", "String::clone -> shim (r@ == s@)"),
+    "drop_document_path": ("re", r"\bdocument::get_insertion_index\b", "get_insertion_index", "single file: the module path is dropped"),
+    "doc_tokens_from": ("re", r"&doc\.tokens\[gd\.offset\.\.\]", "slice_from(&doc.tokens, gd.offset)", "&s[a..] (RangeFrom indexing) -> shim, panics iff a > len"),
+    "lookup_cloned": ("re", r"doc\.table\.lookup\(&name\.value\)\.cloned\(\)", "option_cloned(doc.table.lookup(&name.value))", "Option<&T>::cloned -> shim; derived Clone of GlobalEntry is structural (R1)"),
     "box_as_ref": ("re", r"\bboxed\.as_ref\(\)", r"&**boxed", "Box::as_ref on &Box<T> replaced by its std body `&**self` (no vstd spec; generic over the allocator)"),
     "self_name_clone_to_callee": ("re", r"self\.name\.value\.clone\(\)", r"string_clone(&callee.value)", "captured field path `self.name` of the lifted loop body becomes the parameter `callee` (R6); String::clone -> shim"),
     "ref_ne": ("re", r"\barg_type != param_type\b", r"!datatype_eq(arg_type, param_type)", "`!=` on two `&DataType` (PartialEq for references) written as the derived comparison it resolves to"),
@@ -384,7 +389,7 @@ def apply_rewrite(name, text):
                     depth -= 1
                 k += 1
             clo = out[m.end():k - 1].strip()
-            tail = re.match(r"\s*\.\s*collect\(\)" if method != "partition" else r"", out[k:])
+            tail = re.match(r"\s*\.\s*collect\(\)" if method not in ("partition", "find") else r"", out[k:])
             if not tail:
                 pos = k
                 continue
